@@ -44,3 +44,19 @@ fire("C31", "sum-measurement-drops-rng-in-closure",
      (SMP, "            is_state_batched=is_state_batched,\n            rng=rng,\n            prng_key=prng_key,\n        )\n        return sum(results)",
            "            is_state_batched=is_state_batched,\n            prng_key=prng_key,\n        )\n        return sum(results)"),
      "R-C31-thread", "_measure_sum_with_samples")
+
+# --- R-C31-bag / R-C31-perm
+_SIM = "pennylane/devices/qubit/simulate.py"
+_DQ = "pennylane/devices/default_qubit.py"
+fire("C31", "postselection-call-names-its-kwargs-and-drops-rng",
+     (_SIM, "                state, is_state_batched, circuit.shots, prng_key=key, **execution_kwargs\n",
+            "                state,\n                is_state_batched,\n                circuit.shots,\n                prng_key=key,\n                postselect_mode=execution_kwargs.get(\"postselect_mode\", None),\n"),
+     "R-C31-bag", "get_final_state")
+fire("C31", "parallel-dispatch-restores-order-with-the-same-permutation",
+     (_DQ, "        with execution_config.executor_backend(max_workers=max_workers) as executor:\n            exec_map = executor.map(_simulate_wrapper, vanilla_circuits, simulate_kwargs)\n            results = tuple(exec_map)\n\n        # reset _rng to mimic serial behaviour\n        self._rng = np.random.default_rng(self._rng.integers(2**31 - 1))\n\n        return results",
+           "        order = np.argsort([-(2**c.num_wires) for c in vanilla_circuits], kind=\"stable\")\n        vanilla_circuits = [vanilla_circuits[i] for i in order]\n        simulate_kwargs = [simulate_kwargs[i] for i in order]\n"
+           "        with execution_config.executor_backend(max_workers=max_workers) as executor:\n            exec_map = executor.map(_simulate_wrapper, vanilla_circuits, simulate_kwargs)\n            results = tuple(exec_map)\n\n        # reset _rng to mimic serial behaviour\n        self._rng = np.random.default_rng(self._rng.integers(2**31 - 1))\n\n        return tuple(results[i] for i in order)"),
+     "R-C31-perm", "DefaultQubit.execute")
+silent("C31", "postselection-call-passes-rng-explicitly",
+       [(_SIM, "                state, is_state_batched, circuit.shots, prng_key=key, **execution_kwargs\n",
+               "                state,\n                is_state_batched,\n                circuit.shots,\n                prng_key=key,\n                rng=execution_kwargs.get(\"rng\", None),\n                postselect_mode=execution_kwargs.get(\"postselect_mode\", None),\n")])
